@@ -71,7 +71,7 @@ impl<U: Subscription, H: Subscription> Subscription for ZipSubscription<H, U> {
   }
 
   fn is_closed(&self) -> bool {
-    self.b.is_closed()
+    self.a.is_closed() && self.b.is_closed()
   }
 }
 
